@@ -63,6 +63,7 @@ type CheckPart struct {
 	Entries    []string          `json:"entries"`
 	Replace    map[string]string `json:"replace"`
 	Tags       string            `json:"tags"`
+	NoNative   bool              `json:"no_native"`
 }
 
 type KnownFinding struct {
@@ -171,6 +172,7 @@ func main() {
 		if part.Tags != "" {
 			sp.Tags = part.Tags
 		}
+		sp.NoNative = spec.NoNative || part.NoNative
 		r := &runner{id: id, spec: &sp, tier: *tier, seed: seed, workers: *workers, debug: *debug, known: known, maxPaths: *maxPaths}
 		r.scratch, err = os.MkdirTemp("", "verif-"+id+"-")
 		if err != nil {
